@@ -28,8 +28,11 @@ ASSUMPTIONS = ['edges_weakly_increasing: the histogram SPEC theorems (holo_eq_sp
                'compared with the code on such edges (stream holo_malformed, why=decreasing-edges, tag outside-domain:decreasing-edges: '
                'compared, not judged by the instance check); non-monotonic edges: ValueError on both sides',
                'squash_time values other than False / sum / mean raise TypeError after the sparse matrix is built (C11.squash_other_raises; '
-               'stream holo_squash_other compares the error kind, including its precedence after shape and edge errors); the mean over an '
-               'empty time axis raises ZeroDivisionError (C11.mean_empty_raises; holo_mean_eq is stated for T > 0)',
+               'stream holo_squash_other compares THAT the call is refused, not the class of the exception); the mean over an '
+               'empty time axis raises ZeroDivisionError (C11.mean_empty_raises; holo_mean_eq is stated for T > 0); for arrays that do not fit '
+               'each other, non-monotone / empty edges and T = 0 the correspondence compares "both refuse / both answer", not the error class',
+               'literal verdicts are given on finite frequencies in [T x M] / [T x M x K] arrays of any real dtype; NaN frequencies, vector-shaped '
+               'first-level input, mismatched shapes, T = 0, side effects on the arguments and time-outs are mechanism-level (literal=False)',
                'amplitudes are finite']
 RULE = ('exhaustive: every assignment of the edge-hitting alphabets {below, negative, each edge, each bin interior, above, NaN} of the '
         'carrier bin set to the T*M first-level samples and of the AM bin set to the T*M*K second-level samples, for (T,M,K) in '
@@ -40,7 +43,10 @@ RULE = ('exhaustive: every assignment of the edge-hitting alphabets {below, nega
         '(254x254 ... 300x300, 2x40000, 40000x2, 70000x1, 1x70000; linear and log), samples on the edges and in the interiors of the '
         'highest, lowest and 2^16-boundary bins and out of range, compared with the model through its sparse entries (op HOLOCOO, '
         'read with holo3d_eq / holo_sum_eq / holo_mean_eq; on every small random case this reading is checked against the model\'s own '
-        'unfolded output); malformed: mismatched T / M / K, 2-D second level, non-monotone or empty edges, T = 0. Every input is '
+        'unfolded output); non-float64 storage (stream holo_dtype): frequency arrays as int64 / int32 / int16 / float32 with edges that are not '
+        'numbers of that dtype (half-integer edges, 0.1-0.3-0.7 grids, float32 neighbours of every edge), integer / float32 / list edge '
+        'vectors; long recordings (stream holo_long): T = 2^14 / 2^15 / 2^16 (/ 2^17) + r samples generated from a seed, content drifting '
+        'over the recording; malformed: mismatched T / M / K, 2-D second level, non-monotone or empty edges, T = 0. Every input is '
         'evaluated as ONE SEQUENCE OF CALLS ON THE SAME ARRAY OBJECTS: the three squash_time settings in one of the 6 orders, a call in '
         'the other mode, the first setting again; each result is compared with the model and with the triple-loop histogram of a '
         'pristine copy, and the arrays handed in are compared with the pristine copy after every call. Non-trivial: at least one sample '
